@@ -1,6 +1,7 @@
 import TsVerif.C01.Judge
 import TsVerif.C01.Stream
 import TsVerif.C01.Lemmas
+import TsVerif.C01.Skel
 import TsVerif.C10.Model
 /-!
 # C01 — Incremental re-parse equals parsing the new text from scratch
@@ -44,8 +45,16 @@ Clause map
   by running this machine on the dumped tables (Judge.lean `certifyReuse`, Drivers/C01.lean).
 * `incr_error_iff` on the machine (error = stuck): a halted incremental run errs/accepts iff the
   scratch run does.
-* OPEN: GLR versions, error recovery (what happens AFTER the first error), non-terminal extras,
-  keyword re-labelling inside the machine.  On the implementation whole-tree equality is DECIDED per case by
+* `steps_same_symbols`, `gate_state_test_partial` (Skel.lean `step_skel`: the machine looks only at
+  token symbols): after replacing one token by a token of the same symbol every configuration of
+  the re-parse has the parse states of the old parse, so the gate's state test succeeds for every
+  old subtree that does not contain the token.
+* range changes: `view_agree`, `relex_same_ranges` (for `LexLocalV` lexers a token whose window
+  meets no range difference is lexed identically under the new ranges) — `incr_eq_scratch` covers
+  exactly the histories (edits AND range changes) for which the certificates hold on the new token
+  sequence; the two lexer-side exceptions are the findings named in `LexLocalV`'s comment.
+* OPEN: GLR versions in the theorems, error recovery (what happens AFTER the first error), keyword
+  re-labelling inside the machine; the gate-driven run itself (`stray = 0`).  On the implementation whole-tree equality is DECIDED per case by
   `judge` (Judge.lean).
 * Genuine defect found by the judge (see the last section): a column-dependent token is reused
   although an included-range difference lies earlier on its line.  `reuseGate` therefore carries
@@ -620,6 +629,107 @@ theorem incr_error_iff (T : LR.Table) (bottom : Nat) (l r : Nat) (c d : LR.Stack
   obtain ⟨n, hn⟩ := incr_eq_scratch T bottom l r c d h hf
   exact ⟨n, fun m => by rw [hn m]; exact ⟨Iff.rfl, Iff.rfl⟩⟩
 
+/-! ## The gate's state test after a same-kind token replacement -/
+
+/-- `steps_same_symbols`: two inputs with the same token symbols drive the machine through the same
+states, actions and tree shapes. -/
+theorem steps_same_symbols (T : LR.Table) (bottom k : Nat) (st : LR.Stack) (inp inp' : List Tok)
+    (h : inp.map LR.skelTok = inp'.map LR.skelTok) :
+    (LR.steps T bottom k st inp).map LR.skelCfg = (LR.steps T bottom k st inp').map LR.skelCfg := by
+  rw [← LR.steps_skel, ← LR.steps_skel, h]
+
+/-- `gate_state_test_partial` (towards "stray = 0" of C12's `reparse_work_bound_partial`; restricted
+to deterministic tables, no external scanner, an edit that replaces ONE token by a token of the
+same symbol — the C12 measurement edits): every configuration of the re-parse has exactly the
+parse states of the corresponding configuration of the old parse.  Hence for EVERY subtree of the
+old tree that does not contain the replaced token, the reuse gate's
+`ts_subtree_parse_state(tree) == state` test (and `breakdown_lookahead`'s) succeeds at the point
+where the re-parse reaches it, and its certificate `LR.ReuseOK` — which does not mention the
+context — carries over unchanged; only table-level refusals (fragile repeat reductions, first-leaf
+test) can make the real gate descend.
+
+FULL STATEMENT (OPEN): an `LR.IncrRun` that reuses every maximal subtree not containing the
+replaced token exists and is the run the gate-driven parser performs when no node is fragile
+(`stray = 0`); needs the old-tree iterator and `breakdown_top_of_stack` inside the machine. -/
+theorem gate_state_test_partial (T : LR.Table) (bottom k : Nat) (pre post : List Tok) (x x' : Tok)
+    (hx : x'.sym = x.sym) (c : LR.Stack × List Tok)
+    (hold : LR.steps T bottom k [] (pre ++ x :: post) = some c) :
+    ∃ c', LR.steps T bottom k [] (pre ++ x' :: post) = some c' ∧
+      c'.1.map (·.state) = c.1.map (·.state) ∧ c'.1.map (·.extra) = c.1.map (·.extra) ∧
+      LR.top bottom c'.1 = LR.top bottom c.1 ∧ c'.2.length = c.2.length := by
+  have hin : (pre ++ x :: post).map LR.skelTok = (pre ++ x' :: post).map LR.skelTok := by
+    simp [LR.skelTok, hx]
+  have h := steps_same_symbols T bottom k [] _ _ hin
+  rw [hold] at h
+  cases hn : LR.steps T bottom k [] (pre ++ x' :: post) with
+  | none => rw [hn] at h; simp at h
+  | some c' =>
+    rw [hn] at h
+    simp only [Option.map_some, Option.some.injEq, LR.skelCfg, Prod.mk.injEq] at h
+    obtain ⟨h1, h2⟩ := h
+    refine ⟨c', rfl, ?_, ?_, ?_, ?_⟩
+    · have := congrArg (List.map (·.state)) h1
+      simpa [LR.skelE, List.map_map, Function.comp_def] using this.symm
+    · have := congrArg (List.map (·.extra)) h1
+      simpa [LR.skelE, List.map_map, Function.comp_def] using this.symm
+    · rw [← LR.top_skel bottom c'.1, ← LR.top_skel bottom c.1, h1]
+    · have := congrArg List.length h2
+      simpa using this.symm
+
+/-! ## Re-lexing when the INCLUDED RANGES change
+
+`incr_eq_scratch` speaks about token sequences: it covers every history — text edits and changes
+of the included ranges alike — in which the tokens below each reused subtree and its followers are
+the tokens the lexer delivers on the new input (the certificates `LR.ReuseOK`).  For text edits
+`relex_before`/`relex_after` provide that; for range changes the following does, for lexers that
+are local with respect to the INCLUDED VIEW of the document. -/
+
+/-- Is byte `i` inside one of the ranges? -/
+def inR (rs : List (Nat × Nat)) (i : Nat) : Bool := rs.any (fun r => decide (r.1 ≤ i) && decide (i < r.2))
+
+/-- What the lexer can see at document position `i`: the byte if it is included, nothing otherwise. -/
+def viewOf (text : List Nat) (rs : List (Nat × Nat)) (i : Nat) : Option Nat :=
+  if inR rs i then text[i]? else none
+
+/-- `diffs` covers the symmetric difference of the two range sets
+(`ts_range_array_get_changed_ranges`). -/
+def DiffSpec (old new diffs : List (Nat × Nat)) : Prop :=
+  ∀ i, inR old i ≠ inR new i → ∃ d ∈ diffs, d.1 ≤ i ∧ i < d.2
+
+/-- `view_agree`: where the gate's range test finds no difference, both parses see the same bytes. -/
+theorem view_agree (text : List Nat) (old new diffs : List (Nat × Nat)) (s e : Nat)
+    (hspec : DiffSpec old new diffs) (hsorted : RangesSorted diffs)
+    (h : rangeIntersects diffs s e = false) :
+    ∀ i, s ≤ i → i < e → viewOf text old i = viewOf text new i := by
+  intro i hs he
+  by_cases hd : inR old i = inR new i
+  · simp [viewOf, hd]
+  · obtain ⟨d, hmem, h1, h2⟩ := hspec i hd
+    have := rangeIntersects_sound diffs s e hsorted h d hmem
+    exact absurd ⟨by omega, by omega⟩ this
+
+/-- A lexer over the included view that is local: the token at `p` depends only on what is visible
+in `[p, p + padding + size + lookahead)`.  NOTE: the pinned lexer satisfies this only if the window
+of a token that peeked the END OF THE INCLUDED INPUT is taken to extend to the end of the address
+space — finding `C01-eof-lookahead-range-added`, repaired by /repo 2da2be2
+(`diffSpanEnd … (oldEnd := some …)`); and it is false across a range boundary that splits a
+character (finding `C01-range-boundary-splits-character`, C13). -/
+def LexLocalV {μ : Type} (lexV : μ → (Nat → Option Nat) → Nat → Tok) : Prop :=
+  ∀ m v v' p, (∀ i, i < (lexV m v p).window → v (p + i) = v' (p + i)) → lexV m v' p = lexV m v p
+
+/-- `relex_same_ranges`: a token whose examined window meets no included-range difference (the
+gate's `rangeIntersects … = false` on the sorted differences) is lexed identically under the new
+ranges — the range-change counterpart of `relex_before`/`relex_after`, which makes
+`incr_eq_scratch` applicable to histories that change the included ranges. -/
+theorem relex_same_ranges {μ : Type} (lexV : μ → (Nat → Option Nat) → Nat → Tok) (hl : LexLocalV lexV)
+    (m : μ) (text : List Nat) (old new diffs : List (Nat × Nat)) (p : Nat)
+    (hspec : DiffSpec old new diffs) (hsorted : RangesSorted diffs)
+    (h : rangeIntersects diffs p (p + (lexV m (viewOf text old) p).window) = false) :
+    lexV m (viewOf text new) p = lexV m (viewOf text old) p := by
+  apply hl
+  intro i hi
+  exact view_agree text old new diffs p _ hspec hsorted h (p + i) (by omega) (by omega)
+
 theorem step_input (T : LR.Table) (bottom : Nat) (st st' : LR.Stack) (inp inp' : List Tok)
     (h : LR.step T bottom st inp = some (st', inp')) : inp'.length ≤ inp.length := by
   unfold LR.step at h
@@ -747,6 +857,41 @@ example :
     let all := [(0, 1), (2, 4294967295)]
     reuseGate toyLang all t 1 1 2 true (lineDiffOf false all t 1 1) = .reuse ∧
     reuseGate toyLang all t 1 1 2 true (lineDiffOf true all t 1 1) = .rangeDiff := by decide
+
+/-- `gate_state_test_partial` applies: replacing the token `b` by another token of the same symbol
+(different size) in `a b c`. -/
+example : ∃ c', LR.steps toyTable 0 3 [] ([tk 1] ++ ({ tk 2 with size := 7 } : Tok) :: [tk 3]) = some c' ∧
+    c'.1.map (·.state) = [3] :=
+  let ⟨c', h1, h2, _⟩ := gate_state_test_partial toyTable 0 3 [tk 1] [tk 3] (tk 2) { tk 2 with size := 7 } rfl
+    ([{ state := 3, tree := toyA, extra := false }], [tk 3]) (by rfl)
+  ⟨c', h1, by simpa using h2⟩
+
+/-- A view-local lexer and a range change to which `relex_same_ranges` applies: old ranges `[0,2)`,
+new `[0,2);[5,6)`, difference `[5,6)`; the token at 0 (window 1) is unaffected. -/
+def toyLexV (_ : Unit) (v : Nat → Option Nat) (p : Nat) : Tok :=
+  { sym := (v p).getD 0, pad := 0, size := 1, la := 0 }
+
+theorem toyLexV_local : LexLocalV toyLexV := by
+  intro m v v' p h
+  have h0 := h 0 (by simp [toyLexV, Tok.window])
+  simp at h0
+  simp [toyLexV, h0]
+
+theorem toy_diffspec : DiffSpec [(0, 2)] [(0, 2), (5, 6)] [(5, 6)] := by
+  intro i h
+  refine ⟨(5, 6), by simp, ?_⟩
+  simp only [inR, List.any_cons, List.any_nil, Bool.or_false, ne_eq] at h
+  by_cases h5 : 5 ≤ i ∧ i < 6
+  · exact h5
+  · exfalso
+    apply h
+    have : (decide (5 ≤ i) && decide (i < 6)) = false := by
+      simp only [Bool.and_eq_false_iff, decide_eq_false_iff_not]
+      omega
+    simp [this]
+
+example : toyLexV () (viewOf [7, 8, 9, 9, 9, 4] [(0, 2), (5, 6)]) 0 = toyLexV () (viewOf [7, 8, 9, 9, 9, 4] [(0, 2)]) 0 :=
+  relex_same_ranges toyLexV toyLexV_local () _ _ _ [(5, 6)] 0 toy_diffspec (by simp [RangesSorted]) (by decide)
 
 /-! ## Finding `eof-lookahead-range-added`, at the level of the gate
 
